@@ -126,6 +126,10 @@ pub struct Scenario {
     /// far below 200 bytes; only a user DISCONNECT may exceed it)
     #[serde(default)]
     pub max_packet_size: Option<u32>,
+    /// packet identifiers consumed (by acknowledged publishes) before the history starts:
+    /// moves the history's identifiers beyond 255 or across the 16-bit wrap-around
+    #[serde(default)]
+    pub id_offset: u32,
     pub events: Vec<Ev>,
 }
 
@@ -1715,6 +1719,14 @@ pub fn run(scn: &Scenario, cfg: &SimCfg) -> SimOut {
     let mut failures = vec![];
     if let Err(e) = connect_and_run(&mut w, ConnectSpec::default(), &connack, &WritePlan::default()) {
         failures.push(Failure { sig: "HARNESS/prologue".into(), msg: e });
+        return SimOut { failures, stats: Stats::default(), proj: Projections::default() };
+    }
+    if scn.id_offset > 0 && !w.warm_up_identifiers(scn.id_offset) {
+        // a defect in plain publishing: reported by the properties that own it
+        failures.push(Failure {
+            sig: "C05/not-completed/pub1".into(),
+            msg: format!("warm-up of {} acknowledged QoS 1 publishes did not go through: panics {:?}, run {:?}", scn.id_offset, w.panics, w.run_result),
+        });
         return SimOut { failures, stats: Stats::default(), proj: Projections::default() };
     }
     cfg.write.install(&w);
